@@ -235,6 +235,43 @@ static void c07_history_phase(int depth, int placementStep, int maxPair) {
     } while (mcx::odo_next(idx, 5) && !ctx.stopped());
 }
 
+
+// ---- C07, ConstrainedMajorizationLayout: the constraint set EDITED between runs of one layout object --------------------------------------------
+// The layout keeps a pointer to the caller's constraint vector.  run(); the caller pushes a second constraint onto that vector (or registers a new vector
+// with setConstraints); run() again -- after every run each constraint then in force must hold (1e-4) or be reported.  Every ordered pair of templates.
+static void c07_cml_edit_case(const vector<Tpl> &T, int a, int b, int code, int how) {
+    int n = 3; vpsc::Rectangles rs; int c = code; VD x0, y0;
+    for (int i = 0; i < n; i++) { double x = GRID[c % 3]; c /= 3; double y = GRID[c % 3]; c /= 3; rs.push_back(new vpsc::Rectangle(x - 10, x + 10, y - 10, y + 10)); x0.push_back(x); y0.push_back(y); }
+    vector<Edge> es; for (int i = 0; i + 1 < n; i++) es.push_back(Edge(i, i + 1));
+    CompoundConstraints ccs, ccs2; vector<CompoundConstraint *> extraA, extraB, mine[2];
+    CompoundConstraint *ca = T[a].make(rs, extraA); mine[0].push_back(ca); for (auto e : extraA) { mine[0].push_back(e); ccs.push_back(e); } ccs.push_back(ca);
+    string desc = mcx::fmt("ConstrainedMajorizationLayout n=3 start:"); for (int i = 0; i < n; i++) desc += mcx::fmt("(%g,%g)", x0[i], y0[i]);
+    desc += " constraints: [" + T[a].name + "] run; then " + (how == 0 ? "push onto the registered vector" : "setConstraints(a new vector with both)") + ": [" + T[b].name + "] run";
+    ctx.announce(desc); UnsatisfiableConstraintInfos ux, uy; g_mode_makeFeasibleOnly = false; g_w.assign(n, 20); g_h.assign(n, 20); VD xb0, yb0;
+    auto judge = [&](int upto, const char *when) { VD x, y; string pos; for (int i = 0; i < n; i++) { x.push_back(rs[i]->getCentreX()); y.push_back(rs[i]->getCentreY()); pos += mcx::fmt("(%g,%g)", x[i], y[i]); }
+        ctx.count("transitions"); ctx.count("evaluations");
+        for (int q = 0; q <= upto; q++) { double v = q ? T[b].viol(x, y, xb0, yb0) : T[a].viol(x, y, x0, y0); if (v <= 1e-4) continue;   // (FixedRelative refers to the centres at ITS construction)
+            bool excused = false; for (auto *lst : {&ux, &uy}) for (auto *u : *lst) for (auto m : mine[q]) if (u->cc == m) excused = true;
+            if (excused) ctx.count("violated_and_reported"); else ctx.violation(ux.empty() && uy.empty() ? "violated_without_report" : "violated_other_constraint_reported", {"cml_edit_history"}, desc, mcx::fmt("%s: [%s] violated by %g; reported %zu+%zu; positions ", when, T[q ? b : a].name.c_str(), v, ux.size(), uy.size()) + pos); } };
+    try {
+        ConstrainedMajorizationLayout alg(rs, es, nullptr, 30); alg.setConstraints(&ccs); alg.setUnsatisfiableConstraintInfo(&ux, &uy);
+        alg.run(); judge(0, "after the first run");
+        for (auto u : ux) delete u; for (auto u : uy) delete u; ux.clear(); uy.clear();
+        xb0.clear(); yb0.clear(); for (int i = 0; i < n; i++) { xb0.push_back(rs[i]->getCentreX()); yb0.push_back(rs[i]->getCentreY()); }
+        CompoundConstraint *cb = T[b].make(rs, extraB); mine[1].push_back(cb); for (auto e : extraB) mine[1].push_back(e);
+        if (how == 0) { for (auto e : extraB) ccs.push_back(e); ccs.push_back(cb); }
+        else { ccs2 = ccs; for (auto e : extraB) ccs2.push_back(e); ccs2.push_back(cb); alg.setConstraints(&ccs2); }
+        alg.run(); judge(1, "after the second run");
+    } catch (vpsc::CriticalFailure &f) { ctx.library_abort(f.what(), desc); } catch (...) { ctx.library_abort("exception", desc); }
+    for (auto r : rs) delete r; for (int q = 0; q < 2; q++) for (auto m : mine[q]) delete m; for (auto u : ux) delete u; for (auto u : uy) delete u;
+}
+static void c07_cml_edit_phase(int placementStep) {
+    vector<Tpl> T = templates();
+    ctx.phase(mcx::fmt("C07 ConstrainedMajorizationLayout: run, edit the constraint set (push / new vector), run again: every ordered pair of templates x every %d-th of 729 placements", placementStep));
+    for (size_t a = 0; a < T.size(); a++) for (size_t b = 0; b < T.size(); b++) { if (a == b || T[a].maxNode >= 3 || T[b].maxNode >= 3) continue; if (T[a].name.find("fixedPosition") != string::npos || T[b].name.find("fixedPosition") != string::npos || T[a].name.find("PageBoundary") == 0 || T[b].name.find("PageBoundary") == 0) continue;
+        for (int how = 0; how < 2; how++) for (int code = 0; code < 729; code += placementStep) { if (ctx.stopped()) return; if (!ctx.next()) continue; ctx.count("states"); ctx.count("nontrivial"); ctx.sample(mcx::fmt("cml edit [%s] then [%s] code %d", T[a].name.c_str(), T[b].name.c_str(), code), 1); c07_cml_edit_case(T, a, b, code, how); ctx.done_case(); } }
+}
+
 // ---- C08, reconfiguration histories on ONE layout object --------------------------------------------
 // The overlap/exemption settings of a ConstrainedFDLayout can be changed between layouts.  Every sequence (to the depth bound) over
 // {avoid overlaps with exempt group {0,1}, avoid overlaps with no exemption, with exempt group {1,2}, makeFeasible+run} ending with
@@ -298,7 +335,7 @@ int main(int argc, char **argv) {
         c07_phase(3, 0, true, false, 13, 2, 5, 2); c07_phase(3, 0, false, true, 13, 3, 0, 2); c07_phase(3, 1, true, false, 29, 0, 2, 2); c07_phase(2, 0, false, false, 1, 1, 0, 2);
         c07_phase(4, 0, false, false, 97, 2, 0, 1);
         c07_phase(3, 4, true, false, 13, 2, 0, 2); c07_phase(3, 4, true, false, 13, 3, 5, 2);
-        c07_history_phase(2, 29, 1); c07_history_phase(3, 61, 1); c07_history_phase(2, 121, 2);   // ConstrainedMajorizationLayout with setAvoidOverlaps()
+        c07_history_phase(2, 29, 1); c07_history_phase(3, 61, 1); c07_history_phase(2, 121, 2); c07_cml_edit_phase(T ? 13 : 61);   // ConstrainedMajorizationLayout with setAvoidOverlaps()
         if (T) { for (int mode : {0, 1, 2, 4}) c07_phase(3, mode, false, false, 1, 2, 0, 2); c07_phase(3, 0, true, false, 3, 3, 5, 2); c07_phase(3, 0, true, true, 5, 0, 7, 2); c07_phase(4, 0, false, false, 53, 2, 0, 2); c07_phase(4, 1, true, false, 53, 3, 9, 2); }
     } else {
         c08_phase(3, 0, 0, false, false, 1); c08_phase(3, 2, 0, false, false, 1); c08_phase(3, 0, 0, true, false, 1); c08_phase(3, 0, 0, false, true, 1);
